@@ -40,6 +40,8 @@ def c20(ctx):
     pairs = RL.rule_r9(ctx, prog, roots)
     ctx.floor("R9", len(pairs), 12, "zip sites")
     RL.rule_impl_headers(ctx, prog)
+    n23 = RK.rule_r23(ctx, prog, roots)
+    ctx.floor("R23", n23, 5, "caller-supplied callbacks")
     return dict(
         level="proof",
         explanation="Sufficient condition for layout independence, decided on the resolved MIR of every body: "
@@ -47,7 +49,9 @@ def c20(ctx):
                     "maybe_nan::cast_view_mut; (R8) every Axis-typed argument is the caller's axis parameter unchanged, or a "
                     "constant only on 1-D receivers / in the four routines with a documented axis convention; (R9) both sides of "
                     "every zip are undisturbed logical producers; (IMPL) each extension trait is implemented once, generically in "
-                    "the storage parameter. Float summation order inside ndarray's fold/sum is the roundoff the property allows.",
+                    "the storage parameter; (R23) a caller-supplied callback is driven by an order-unspecified traversal only in the "
+                    "routines documented as arbitrary-order; no Default::default() of a generic dimension type (IxDyn). "
+                    "Float summation order inside ndarray's fold/sum is the roundoff the property allows.",
     )
 
 
@@ -187,8 +191,11 @@ def c14(ctx):
     n = RK.rule_r15(ctx, prog)
     ctx.floor("R15", n, 4, "skip-NaN traversals")
     RK.rule_lane_forms(ctx, prog)
+    RK.rule_r23(ctx, prog, [b for b in all_roots(prog) if "maybe_nan::MaybeNanExt" in b.key])
     nd = RX.rule_r7_direction(ctx, prog, RX.SKIPNAN)
     ctx.floor("R7", nd, 4, "direction table rows (skip-NaN extrema)")
+    for nme in ("argmin_skipnan", "argmax_skipnan"):
+        RX.rule_initial_index(ctx, prog, prog.method("QuantileExt", nme), nme)
     only = {("QuantileExt", "argmin_skipnan"), ("QuantileExt", "argmax_skipnan"), ("QuantileExt", "quantile_axis_skipnan_mut")}
     RG.rule_r6(ctx, prog, only=only)
     roots = [b for b in all_roots(prog) if "maybe_nan::MaybeNanExt" in b.key or b.name.endswith("skipnan") or b.name.endswith("skipnan_mut")]
